@@ -364,6 +364,12 @@ def run(prog, check):
                                  'installed only when the book set-up was requested' if flagged else
                                  'book-specific data is installed even when the model was requested without the book set-up',
                                  'use_book_exogenous=False and the user\'s own paths / initial stocks')
+    # R1 (cont.): initial stocks supplied through the Model API are embedded exactly
+    from ._common import initial_value_text_exact
+    for f_, where_, ok_, why_ in initial_value_text_exact(prog):
+        check.saw(f_)
+        check.ob('C09.R1', '%s::initial-value-text-exact(%s)' % (f_.key, where_.rsplit(':', 1)[0]), ok_, where_, why_,
+                 'initial stocks with more than a few decimals (a computed steady state)')
     check.floor('C09.R5', 10)
     check.floor('C09.R3', 4)
     check.floor('C09.R1', 9)
